@@ -140,6 +140,33 @@ Theorem C15_cache_error_outcome_eq_upstream : forall tracked plsup ippvs plr ipp
 Proof. exact cache_error_outcome_eq_upstream. Qed.
 Print Assumptions C15_cache_error_outcome_eq_upstream.
 
+(* EVENT LEVEL (round 8): a pod delivered through the cache's handlers as
+   AddPod(v0), UpdatePod(v0,v1), UpdatePod(v1,v2), ... - status-only, spec-only or
+   mixed changes, any number of them.  In the model of the handlers (addPod builds
+   a new TaskInfo from the event's pod object; updatePod = RemoveTask of the stored
+   request + addPod) the cached task's request after EVERY event is upstream's
+   request of the pod object of that event (+ pods + volumes), and the node's
+   Used carries exactly the same amounts; by induction over the event history
+   with the invariant "Used has the amounts of the cached task".  The model is
+   tied to SchedulerCache.AddPod / UpdatePod by correspondence selector 3 and
+   law 107; for bound, non-terminated pods on a known node with one pod on it. *)
+Theorem C15_event_history_eq_upstream : forall tracked plsup ippvs plr ippl dra (vs : list (list positive * pod_meta * pod)),
+  Forall (fun x => pod_ok tracked plsup x.2) vs ->
+  Forall2 (fun st x =>
+             let want := cache_add_csi
+               (add_scalar (new_resource tracked (k8s_pod_requests plsup (opts_of ippvs plr ippl dra) x.2)) pods_name 1) x.1.1 in
+             st_task st = want /\ same_amounts (st_used st) want)
+          (ev_trace (map (fun x => cache_task_resreq tracked plsup ippvs plr ippl dra x.1.1 x.1.2 x.2) vs)) vs.
+Proof. exact event_history_eq_upstream. Qed.
+Print Assumptions C15_event_history_eq_upstream.
+
+(* the invariant step lemmas behind it, for arbitrary request vectors *)
+Theorem C15_ev_trace_spec : forall reqs,
+  Forall (fun r => scm r <> ∅) reqs ->
+  Forall2 (fun st r => st_task st = r /\ same_amounts (st_used st) r) (ev_trace reqs) reqs.
+Proof. exact ev_trace_spec. Qed.
+Print Assumptions C15_ev_trace_spec.
+
 (* WHICH UPSTREAM COMPUTATION AT WHICH POINT.  A pod ON a node is counted by
    PodInfo.CalculateResource (opts_of, status-aware): the theorems above.  The pod
    BEING PLACED is computed by the fit plugin / kubelet admission with the status
